@@ -609,4 +609,14 @@ def labels_private(repo: Repo, prop: str = PROP, rule: str = "C05.LABELS-PRIVATE
 labels_private.rule_id = "C05.LABELS-PRIVATE"
 
 
-RULES = [lookup_before_create, dense_index, tolerance_siblings, eq_hash, slave_only, corner_patches, add_scenarios, merge_state_survives, no_stale_lazy_cache, merge_roles, patch_follows_face, labels_private]
+def no_exact_coordinates(repo: Repo) -> RuleRun:
+    """'all others shared': coincident corners are recognised by distance."""
+    from ..tolerance import exact_coordinate_equality_rule
+
+    return exact_coordinate_equality_rule(repo, PROP, "C05.NO-EXACT-COORDINATES", ('lists.', 'items.', 'construct.point', 'mesh'))
+
+
+no_exact_coordinates.rule_id = "C05.NO-EXACT-COORDINATES"
+
+
+RULES = [lookup_before_create, dense_index, tolerance_siblings, eq_hash, slave_only, corner_patches, add_scenarios, merge_state_survives, no_stale_lazy_cache, merge_roles, patch_follows_face, labels_private, no_exact_coordinates]
